@@ -16,7 +16,8 @@ import os
 import re
 
 import abbr_gen as g
-from markup_util import run_cases, impl_expand, canon_cfg
+from common import enc_str
+from markup_util import run_cases, impl_expand, canon_cfg, enc_config, decode_res, NotModelled, mentions_lorem
 
 HERE = os.path.dirname(os.path.abspath(__file__))
 VERIF = os.path.dirname(os.path.dirname(HERE))
@@ -492,6 +493,73 @@ RULE = ('abbreviations generated as an AST (elements with ids, classes, attribut
         'output options) is compared model vs implementation only.')
 
 
+def spec_stage(ctx, spec, label, cases, impl):
+    """The extracted SPEC (node_lines of proofs/IndentProofs.v, not the model of the code) as oracle: inside the
+    theorem's domain its text must be the implementation's output; reports how many cases are in the domain."""
+    wires, idx = [], []
+    for k, (abbr, cfg, meta) in enumerate(cases):
+        if impl[k][0] != 'ok' or mentions_lorem(abbr, cfg):
+            continue
+        try:
+            wires.append([1] + enc_config(cfg) + enc_str(abbr))
+            idx.append(k)
+        except NotModelled:
+            pass
+    outs = spec.run(wires) if wires else []
+    c = ctx.cov['correspondence'].setdefault('spec_node_lines_' + label, {'cases': 0, 'in_domain': 0, 'disagreements': 0})
+    for k, w in zip(idx, outs):
+        r = decode_res(w, lambda rd: (rd.bool(), rd.str()))
+        c['cases'] += 1
+        if r[0] != 'ok':
+            c['disagreements'] += 1
+            ctx.broken.append({'kind': 'correspondence', 'file': 'spec-C15', 'input': cases[k][0], 'spec': repr(r)[:200]})
+            continue
+        wf, text = r[1]
+        if not wf:
+            continue
+        c['in_domain'] += 1
+        if text != impl[k][1]:
+            c['disagreements'] += 1
+            if c['disagreements'] <= 5:
+                ctx.say('SPEC DISAGREE %r cfg=%s\n  impl %r\n  spec %r' % (cases[k][0], canon_cfg(cases[k][1]), impl[k][1][:300], text[:300]))
+                ctx.broken.append({'kind': 'correspondence', 'file': 'spec-C15', 'input': cases[k][0], 'config': canon_cfg(cases[k][1]),
+                                   'impl': repr(impl[k][1])[:300], 'spec': repr(text)[:300]})
+
+
+def nest_stage(ctx, spec, hsub):
+    """nest(tree_events) of the SPEC vs the tree of the implementation's HTML output (tag parser)."""
+    c = ctx.cov['correspondence'].setdefault('spec_nest_vs_html_output', {'cases': 0, 'in_domain': 0, 'disagreements': 0})
+    wires, keep = [], []
+    for abbr, cfg, meta in hsub:
+        o = dict(cfg['options'])
+        if o.get('output.selfClosingStyle', 'html') == 'html':
+            o['output.selfClosingStyle'] = 'xhtml'      # a void element must be visible to the tag parser
+        hc = {'syntax': 'html', 'options': o}
+        try:
+            wires.append([2] + enc_config(hc) + enc_str(abbr))
+            keep.append((abbr, hc))
+        except NotModelled:
+            pass
+    outs = spec.run(wires) if wires else []
+    for (abbr, hc), w in zip(keep, outs):
+        r = decode_res(w, lambda rd: (rd.bool(), rd.bool(), rd.list(lambda: (rd.int(), rd.str()))))
+        h = impl_expand(abbr, hc)
+        c['cases'] += 1
+        if r[0] != 'ok' or h[0] != 'ok':
+            continue
+        named, clean, dl = r[1]
+        if not (named and clean):
+            continue
+        c['in_domain'] += 1
+        got, depth = g.html_preorder(h[1])
+        if depth != 0 or got != dl:
+            c['disagreements'] += 1
+            if c['disagreements'] <= 5:
+                ctx.say('NEST DISAGREE %r cfg=%s\n  html %r\n  spec %r' % (abbr, canon_cfg(hc), got[:10], dl[:10]))
+                ctx.broken.append({'kind': 'correspondence', 'file': 'spec-C15-nest', 'input': abbr, 'config': canon_cfg(hc),
+                                   'impl': repr(got)[:300], 'spec': repr(dl)[:300]})
+
+
 def attach_meta(ctx, cases):
     """run_cases builds the replay objects; add what replay() needs to re-judge the input."""
     look = {(a, canon_cfg(c)): m for a, c, m in cases}
@@ -504,10 +572,11 @@ def attach_meta(ctx, cases):
 
 
 def run(ctx):
-    ok = ctx.build(['props/C15.vo', 'run/MarkupRun.vo'])
+    ok = ctx.build(['props/C15.vo', 'run/MarkupRun.vo', 'run/IndentRun.vo'])
     if ok:
         ctx.obligations('props/C15.v')
     model = ctx.model('markup') if ok else None
+    spec = ctx.model('indent') if ok else None
     ctx.cov['rule'] = RULE
     ctx.cov['exhaustive_skeleton_units'] = '1-2 all, 3 one third (by seed)' if ctx.tier == 'quick' else '1-3 all, 4 one sixth (by seed)'
     cases = gen(ctx)
@@ -524,7 +593,11 @@ def run(ctx):
     check_chunks(ctx, hsub)
     attach_meta(ctx, cases)
     tie = gen_tie(ctx)
-    run_cases(ctx, model, tie, 'C15tie', None)
+    timpl = run_cases(ctx, model, tie, 'C15tie', None)
+    if spec is not None:
+        spec_stage(ctx, spec, 'generated', cases, impl)
+        spec_stage(ctx, spec, 'tie_stream', tie, timpl)
+        nest_stage(ctx, spec, hsub)
     shown = 0
     for (abbr, cfg, meta), r in zip(cases, impl):
         if shown < 6 and r[0] == 'ok' and len(meta['lines']) >= 4 and '\n' in abbr:
